@@ -9,9 +9,11 @@ import (
 	"os"
 	"path/filepath"
 	"regexp"
+	"strconv"
 	"strings"
 	"testing"
 	"testing/synctest"
+	"time"
 
 	"github.com/kballard/go-shellquote"
 
@@ -538,33 +540,64 @@ func verifC21TmplWord(r *verifutil.Rand, env, osenv []verifC21KV, hostile bool) 
 	return sb.String()
 }
 
-// hk <nameHex> <portHex> w=<groups> <mode> <q1esc> <type1> <id1> <q2esc> <type2> <id2> <q1raw> <q2raw>
-// (the escaped queries are oracle columns: url.QueryEscape, re-checked by the op)
-func verifC21GenHook(r *verifutil.Rand) string {
-	name := r.Pick("cam1", "live/stream", "a/b_c.d-e", "te_st")
+// hk <name> <port> w=<groups> <mode> <kind1> <a1> <b1> <c1> <d1> <kind2> <a2> <b2> <c2> <d2>
+// (format and meaning of the columns: harness_x_test.go; a/b of some kinds are oracle columns)
+var verifC21HookPairs = [][2]string{
+	{"read", "read"}, {"avail", "avail"}, {"online", "online"}, {"demand", "demand"}, {"connect", "connect"}, {"seg", "seg"},
+	{"read", "seg"}, {"avail", "read"}, {"demand", "online"}, {"seg", "avail"}, {"online", "read"}, {"read", "demand"},
+	{"connect", "read"}, {"availn", "avail"}, {"onlinen", "seg"}, {"seg", "demand"},
+}
+
+func verifC21HookInv(r *verifutil.Rand, kind, name string) string {
+	q := func() string {
+		return r.Pick("who=first", "who=second", "", "user=a&pass=b c", "x=$MTX_PATH&y=${G1}", "t=é\"'", "a=1;b=2 `id` $(id) *",
+			"token="+fmt.Sprint(r.Intn(100000)), "nl=a\nb", "MTX_READER_ID=$MTX_READER_ID")
+	}
+	id := func() string {
+		return fmt.Sprintf("%08x-%04x-4%03x-a%03x-%012x", r.U64()&0xffffffff, r.U64()&0xffff, r.U64()&0xfff, r.U64()&0xfff, r.U64()&0xffffffffffff)
+	}
+	h := verifutil.HexS
+	switch strings.TrimSuffix(kind, "n") {
+	case "read":
+		qq := q()
+		return fmt.Sprintf("%s %s %s %s %s", kind, h(url.QueryEscape(qq)), h(r.Pick("rtspSession", "rtmpConn", "hlsSession", "webRTCSession", "srtConn")), h(id()), h(qq))
+	case "avail", "online":
+		qq := q()
+		return fmt.Sprintf("%s %s %s %s %s", kind, h(url.QueryEscape(qq)), h(r.Pick("rtspSession", "rtmpConn", "rtspSource", "webRTCSession", "srtConn", "hlsSource")), h(id()), h(qq))
+	case "demand":
+		qq := q()
+		return fmt.Sprintf("%s %s - - %s", kind, h(url.QueryEscape(qq)), h(qq))
+	case "connect":
+		return fmt.Sprintf("%s - %s %s -", kind, h(r.Pick("rtspConn", "rtmpConn", "srtConn", "rtspsConn")), h(id()))
+	default: // seg: recordPath is the administrator's, the path name is validated: odd directories are realistic
+		dir := r.Pick("/rec", "/rec dir/my cams", "./rel", "/r/it's \"x\"", "/r/$MTX_PATH/${G1}", "/r/a;b|c/`id`/$(id)", "/r/*/?[a-z]", "/r/new\nline", "/r/é")
+		seg := fmt.Sprintf("%s/%s/2024-02-29_12-00-%02d-%06d.mp4", dir, name, r.Intn(60), r.Intn(1000000))
+		var ns int64
+		switch r.Intn(4) {
+		case 0:
+			ns = []int64{0, 1, 1000000000, 3600000000000, 999999999, 1500000000, 59999999999}[r.Intn(7)]
+		default:
+			ns = int64(r.U64() % 7200000000000)
+		}
+		return fmt.Sprintf("%s %s %s %s -", kind, h(seg), h(strconv.FormatFloat(time.Duration(ns).Seconds(), 'f', -1, 64)), h(strconv.FormatInt(ns, 10)))
+	}
+}
+
+func verifC21GenHook(r *verifutil.Rand, j int) string {
+	name := r.Pick("cam1", "live/stream", "a/b_c.d-e", "te_st", "G1", "MTX_PATH")
 	port := r.Pick("8554", "8554", "18554", "")
 	ng := r.Intn(4)
 	groups := make([]string, ng)
-	for j := range groups {
-		groups[j] = r.Pick("st", "1", "a/b", "", "G1", "x_y")
+	for k := range groups {
+		groups[k] = r.Pick("st", "1", "a/b", "", "G1", "x_y")
 	}
-	q := func() string {
-		return r.Pick("who=first", "who=second", "", "user=a&pass=b c", "x=$MTX_PATH&y=${G1}", "t=é\"'", "a=1;b=2", "token="+fmt.Sprint(r.Intn(100000)))
-	}
-	q1, q2 := q(), q()
-	if q1 == q2 {
-		q2 += "&n=2"
-	}
-	ty := func() string { return r.Pick("rtspSession", "rtmpConn", "hlsMuxer", "webRTCSession", "srtConn") }
-	id := func() string { return fmt.Sprintf("%08x-%04x-4%03x-a%03x-%012x", r.U64()&0xffffffff, r.U64()&0xffff, r.U64()&0xfff, r.U64()&0xfff, r.U64()&0xffffffffffff) }
+	pair := verifC21HookPairs[j%len(verifC21HookPairs)]
 	mode := "u"
-	if r.Chance(1, 4) {
+	if r.Chance(1, 3) {
 		mode = "ru"
 	}
-	return fmt.Sprintf("hk %s %s %s %s %s %s %s %s %s %s %s %s", verifutil.HexS(name), verifutil.HexS(port), verifC21FmtWords(groups), mode,
-		verifutil.HexS(url.QueryEscape(q1)), verifutil.HexS(ty()), verifutil.HexS(id()),
-		verifutil.HexS(url.QueryEscape(q2)), verifutil.HexS(ty()), verifutil.HexS(id()),
-		verifutil.HexS(q1), verifutil.HexS(q2))
+	return fmt.Sprintf("hk %s %s %s %s %s %s", verifutil.HexS(name), verifutil.HexS(port), verifC21FmtWords(groups), mode,
+		verifC21HookInv(r, pair[0], name), verifC21HookInv(r, pair[1], name))
 }
 
 func verifC21Gen(r *verifutil.Rand, i int, thorough bool) []string {
@@ -575,10 +608,11 @@ func verifC21Gen1(r *verifutil.Rand, i int, thorough bool) []string {
 	// starting a process costs 0.1–0.2 s in the sandbox: 1 real run per 50 cases (each run carries
 	// several words and variables), the rest exercise expandEnv in-process
 	switch {
-	case i%800 == 25: // two overlapping readers of one real path, through the real hooks.OnRead
-		return []string{verifC21GenHook(r)}
-	case i%100 == 50 || i%200 == 0: // run (every 100th case) / restarting hook observed for 2 runs (every 200th)
-		restart := i%200 == 0
+	case i%400 == 25: // two overlapping hook invocations on one real path, through the real hooks package;
+		// the kinds rotate (offset by the seed-derived stream so that every pair comes up over a few seeds)
+		return []string{verifC21GenHook(r, i/400+r.Intn(len(verifC21HookPairs)))}
+	case i%125 == 60 || i%250 == 0: // run (every 125th case) / restarting hook observed for 2 runs (every 250th)
+		restart := i%250 == 0
 		hostile := r.Chance(1, 6) && !restart
 		env := verifC21Env(r, hostile)
 		osenv := verifC21OSEnv(r)
@@ -653,7 +687,10 @@ func verifC21Class(op, impl string) string {
 		}
 		return "rst/" + a[0]
 	case "hk":
-		return "hk/" + f[4]
+		if len(f) == 15 {
+			return "hk/" + f[5] + "+" + f[10] + "/" + f[4]
+		}
+		return "hk/?"
 	case "exp":
 		w := verifutil.UnHexS(f[1])
 		switch {
